@@ -175,3 +175,89 @@ func zzH_C06_workerRun() {
 		zz.Reach("partitioned, several flushes")
 	}
 }
+
+// zzH_C12_workerDiscard: Discard on a worker, for a task in any state, an
+// unknown task or an unknown invocation: only an OK task is affected - every
+// one of its partitions disappears from the store and it ends LOST, so that a
+// later Run recomputes it; running it again stores the rows again.
+func zzH_C12_workerDiscard() {
+	old := *defaultChunksize
+	*defaultChunksize = 2
+	defer func() { *defaultChunksize = old }()
+	ctx := context.Background()
+	np := zz.AnyIntIn("partitions", 1, 2)
+	n := zz.AnyIntIn("rows", 0, 2)
+	keys, vals := make([]int64, n), make([]int64, n)
+	for i := range keys {
+		keys[i], vals[i] = zz.AnyInt64("key"), zz.AnyInt64("val")
+	}
+	name := TaskName{InvIndex: 1, Op: "t", Shard: 0, NumShard: 1}
+	task := &Task{Name: name, Type: zzTyp2, NumPartition: np}
+	task.Partitioner = func(ctx context.Context, f frame.Frame, nshard int, shards []int) {
+		for i := range shards {
+			shards[i] = 0
+		}
+	}
+	runs := 0
+	task.Do = func([]sliceio.Reader) sliceio.Reader {
+		runs++
+		return &sliceio.ZZModelReader{Tag: "src", FailAt: -1, Keys: keys, Vals: vals, NoEOFData: true, Deterministic: true}
+	}
+	st := newMemoryStore()
+	w := &worker{
+		store:          st,
+		tasks:          map[uint64]map[TaskName]*Task{1: {name: task}},
+		taskStats:      map[uint64]map[TaskName]*stats.Map{1: {name: stats.NewMap()}},
+		stats:          stats.NewMap(),
+		combinerStates: map[TaskName]combinerState{},
+	}
+	zzEncs, zzEncOrder, zzEncFailAt, zzEncWrites = map[*sliceio.Encoder]*zzEnc{}, nil, -1, 0
+	s := zz.AnyIntIn("state", int(TaskInit), int(TaskLost))
+	if TaskState(s) == TaskOk {
+		var reply taskRunReply
+		zz.Assert(w.Run(ctx, taskRunRequest{Name: name, Invocation: 1}, &reply) == nil, "the first run succeeds")
+		zz.Assert(task.state == TaskOk, "the first run leaves the task OK")
+	} else {
+		task.state = TaskState(s)
+	}
+	present := func(p int) bool { _, err := st.Stat(ctx, name, p); return err == nil }
+	which := zz.AnyIntIn("target", 0, 2)
+	target := name
+	switch which {
+	case 1:
+		target.Op = "other"
+	case 2:
+		target.InvIndex = 7
+	}
+	before := task.state
+	zz.Assert(w.Discard(ctx, target, nil) == nil, "Discard reports no error")
+	if which != 0 || before != TaskOk {
+		zz.Reach("nothing to discard")
+		zz.Assert(task.state == before, "Discard leaves a task that is not OK (or another task) untouched")
+		for p := 0; p < np; p++ {
+			zz.Assert(present(p) == (before == TaskOk), "Discard of another task leaves the store untouched")
+		}
+		return
+	}
+	zz.Reach("OK task discarded")
+	zz.Assert(task.state == TaskLost, "a discarded task is LOST, so a later run recomputes it")
+	for p := 0; p < np; p++ {
+		zz.Assert(!present(p), "every partition of a discarded task is gone from the store")
+	}
+	// recomputation
+	zzEncOrder = nil
+	var reply taskRunReply
+	zz.Assert(w.Run(ctx, taskRunRequest{Name: name, Invocation: 1}, &reply) == nil, "running a discarded task again succeeds")
+	zz.Assert(task.state == TaskOk && runs == 2, "the task body really runs again")
+	for p := 0; p < np; p++ {
+		zz.Assert(present(p), "after recomputation every partition is stored again")
+	}
+	if len(zzEncOrder) > 0 {
+		ze := zzEncOrder[0]
+		zz.Assert(len(ze.keys) == n, "the recomputed partition holds all rows")
+		for i := 0; i < n && i < len(ze.keys); i++ {
+			zz.Assert(zz.And(ze.keys[i] == keys[i], ze.vals[i] == vals[i]), "the recomputed partition holds the same rows")
+		}
+		zz.Reach("recomputed")
+	}
+}
